@@ -7,8 +7,12 @@ wt=/tmp/mutrepo-$$
 git -C /repo worktree add --detach $wt >/dev/null 2>&1 || { echo "WORKTREE FAILED"; exit 9; }
 ( cd $wt && git apply "$d/patch.diff" ) || { echo "PATCH FAILED"; git -C /repo worktree remove --force $wt; exit 9; }
 mkdir -p /tmp/vt
+ls /verif/replays > /tmp/vt/replays-before-$$.txt
 cd /verif && VERIF_REPO_OVERRIDE=$wt ./bin/vcheck run --property $p --budget $b > /tmp/vt/mut-$p-$$.txt 2>&1; rc=$?
 git -C /repo worktree remove --force $wt
+# replay files written by a mutant run describe the mutant, not the tree: drop them
+ls /verif/replays | grep -vxFf /tmp/vt/replays-before-$$.txt | while read f; do rm -f "/verif/replays/$f"; done
+rm -f /tmp/vt/replays-before-$$.txt
 echo "mutant $(basename $d) vs $p: exit=$rc"
 grep "^VIOLATION\|^  class\|^vcheck: C\|INFRASTRUCTURE" /tmp/vt/mut-$p-$$.txt | cut -c1-260 | head -10
 rm -f /tmp/vt/mut-$p-$$.txt
